@@ -19,11 +19,11 @@ def strategy(tier):
     ks = st.lists(st.integers(0, 60), min_size=1, max_size=6)
     bigk = st.lists(st.one_of(st.integers(0, 100), st.integers(100, 10000)), min_size=1, max_size=6)
     return st.one_of(
-        st.fixed_dictionaries({"dist": st.just("exponential"), "a": st.floats(0.01, 10.0), "ks": bigk, "np": st.booleans()}),
-        st.fixed_dictionaries({"dist": st.just("poisson"), "m": st.one_of(st.floats(0.01, 20.0), st.floats(20.0, 1000.0), st.integers(1, 300)), "ks": st.lists(st.one_of(st.integers(0, 100), st.integers(100, 1000)), min_size=1, max_size=6), "np": st.booleans()}),
-        st.fixed_dictionaries({"dist": st.just("power_law"), "alpha": st.one_of(st.floats(2.0, 8.0), st.integers(2, 12)), "ks": bigk, "np": st.booleans()}),
+        st.fixed_dictionaries({"dist": st.just("exponential"), "a": st.floats(0.01, 10.0), "ks": bigk, "np": st.sampled_from([False, False, "int64", "uint64", "uint16", "int32"])}),
+        st.fixed_dictionaries({"dist": st.just("poisson"), "m": st.one_of(st.floats(0.01, 20.0), st.floats(20.0, 1000.0), st.integers(1, 300)), "ks": st.lists(st.one_of(st.integers(0, 100), st.integers(100, 1000)), min_size=1, max_size=6), "np": st.sampled_from([False, False, "int64", "uint64", "uint16", "int32"])}),
+        st.fixed_dictionaries({"dist": st.just("power_law"), "alpha": st.one_of(st.floats(2.0, 8.0), st.integers(2, 12)), "ks": bigk, "np": st.sampled_from([False, False, "int64", "uint64", "uint16", "int32"])}),
         st.fixed_dictionaries({"dist": st.just("cutoff"), "alpha": st.one_of(st.floats(2.0, 6.0), st.integers(2, 8)),
-                               "kappa": st.one_of(st.floats(0.01, 0.2), st.floats(0.1, 20.0), st.floats(20.0, 2000.0)), "ks": bigk, "np": st.booleans()}),
+                               "kappa": st.one_of(st.floats(0.01, 0.2), st.floats(0.1, 20.0), st.floats(20.0, 2000.0)), "ks": bigk, "np": st.sampled_from([False, False, "int64", "uint64", "uint16", "int32"])}),
     )
 
 
@@ -36,7 +36,10 @@ def check(case):
     ks = list(case["ks"])
     if d in ("power_law", "cutoff"):
         ks = [max(1, k) for k in ks]
-    conv = (lambda k: np.int64(k)) if case.get("np") else (lambda k: k)
+    npk = case.get("np")
+    if npk is True:
+        npk = "int64"
+    conv = (lambda k: getattr(np, npk)(k)) if npk else (lambda k: k)
     if d == "exponential":
         a = mp.mpf(case["a"])
         f = call("factory", exponential, case["a"])
@@ -113,5 +116,5 @@ def check(case):
         raise Violation("normalisation", f"{d} {case}: sum_(k<={M}) p(k) + exact tail = {mp.nstr(s + t, 15)}")
     grid = {"a": (0.5, 1.0), "m": (1.0, 2.0, 3.0, 5.0), "alpha": (2.0, 2.5, 3.0), "kappa": (10.0, 100.0)}
     offgrid = all(case[p] not in vals for p, vals in grid.items() if p in case)
-    return {"nontrivial": offgrid and any(k >= 2 for k in ks), "classes": ["dist_" + d] + (["numpy_int"] if case.get("np") else []),
+    return {"nontrivial": offgrid and any(k >= 2 for k in ks), "classes": ["dist_" + d] + (["numpy_" + str(npk)] if npk else []),
             "notes": {"rel_err_" + d: worst}}
